@@ -19,11 +19,31 @@
   * a tuple is a history of column values: `X[:, a:b]` slices samples, `X[rows]`, `X[rows, i]` select rows elementwise (`idx(value, rows)`),
     `.T` / `np.transpose` of a history is the history (iterating it yields the columns), `.real` / `.imag` map over the columns.
 
+Second pass (neutral patches N9-N16):
+
+  * callables are values (`FuncV`): nested `def` / `lambda` closures (free names read from the defining scope), `functools.partial` (local or bound
+    at module level), `operator.attrgetter / itemgetter`, `operator.add ...`; a variable, conditional expression, table lookup or call that yields a
+    helper, a bound method (`adv = self.E.dot`) or a library function is called under that function's name, so hooks and inlining see it;
+    `reduce`, `map`, `itertools.accumulate`, `iter` / `next` (`IterV`); helpers imported from sibling modules are followed (`imported_funcs`);
+  * `self.pc.Ae` read directly and through `pc = self.pc` are the same value; `SimpleNamespace(...)` / dict / `vars(x).update(...)` objects are
+    `DictV` with identity (fields by reference); `np.matmul / np.dot / .dot / np.multiply ...`, `np.real / np.imag`, `np.newaxis`, named slices
+    (`slice(None, k)`, `np.s_[...]`, also module-level) are the operators / literal subscripts they stand for;
+  * `X.T` / `np.transpose(X)` of a history array is the sequence of its column *views* (`Cols`, `ColRef`): iterating / zipping them and
+    `col[:] = value` read and write the array;
+  * flags: a comparison / `not` / `bool(...)` whose truth is decided is the value True / False, `a or b` / `a and b` the operand Python returns;
+  * soundness of what is NOT executed: a region behind an undecided test or inside a loop that cannot be enumerated, and a helper that cannot be
+    followed, *poison* the arrays they store into (`skip`, `poison_args`): the rule reports ANALYSIS-ERROR, never a value that silently kept its old
+    content; at an undecided test an arm after which every path raises is not the path of a result, so the other arm is taken (`run`);
+    `with` bodies and the exception-free path of `try` are executed.
+
 `ModeEv` evaluates mask-partitioned per-mode code (`get_su_coef`) for ONE generic mode of a given regime: every per-mode array is the scalar
 of that mode, a mask or index vector is the truth value "this mode is selected" (0 / 1), `X[sel]` is X or an empty selection, `X[sel] = v`
 stores or is a no-op, `np.any(sel)` is the truth value itself.  Arrays are boxes with identity, so a store through an alias (`for dest, row in
-zip((F, G, ...), rows): dest[pv] = row`) reaches the array.  Ordering comparisons are decided by the rule's regime oracle and logged with the
-values of both operands.
+zip((F, G, ...), rows): dest[pv] = row`) reaches the array; every array in a reference position (element of a display / dict, argument of a helper)
+gets its identity there, so helpers that receive the coefficient arrays directly, in a tuple, in a dict or in a namespace and fill them in place all
+reach the returned arrays; a store whose destination cannot be identified is recorded in `lost` (ANALYSIS-ERROR).  `np.bitwise_and / logical_and /
+operator.and_ ...`, `np.place / putmask / copyto(where=)` are the mask operators / masked stores.  Ordering comparisons are decided by the rule's
+regime oracle and logged with the values of both operands.
 """
 from __future__ import annotations
 
@@ -1516,6 +1536,23 @@ class Ev01(AutoEvaluator):
                 if len(its) == 1 and all(isinstance(x, tuple) for x in its[0]):
                     return tuple(self.call_with(args[0], list(xs), node) for xs in its[0])
             return NotImplemented
+        if isinstance(node.func, ast.Attribute) and node.func.attr in ("append", "extend") and len(args) == 1 and not kws and isinstance(node.func.value, ast.Name):
+            cur = self.env.get(node.func.value.id)
+            if isinstance(cur, tuple) and node.func.value.id not in self.pinned:
+                x = self.ref_of(args[0])
+                if node.func.attr == "extend":
+                    if not isinstance(x, tuple):
+                        return NotImplemented
+                    self.env[node.func.value.id] = cur + x
+                else:
+                    self.env[node.func.value.id] = cur + (x,)
+                return NONE
+        if (d == "np.column_stack" and len(args) == 1 and not kws) or (d == "np.stack" and len(args) == 1 and [k.arg for k in kws] == ["axis"]
+                                                                        and const_of(self.ev(kws[0].value)) in (1, -1)):
+            v = self.evr(args[0])
+            if isinstance(v, tuple) and self.nt is not None and len(v) == self.nt:
+                return tuple(self.plain(x) for x in v)          # columns put side by side: the history of those columns
+            return NotImplemented
         if d in ("SimpleNamespace", "types.SimpleNamespace") and not args:
             return DictV({k.arg: self.ref_of(k.value) for k in kws if k.arg is not None})       # a namespace object: fields by reference
         if d == "getattr" and len(args) in (2, 3) and not kws:
@@ -1900,6 +1937,12 @@ class ModeEv(Ev01):
             return (self.ev(node.func.value),)
         if d in ("np.nonzero", "np.where") and len(args) == 1:
             return (self.ev(args[0]),)
+        if d == "np.where" and len(args) == 3 and not node.keywords:
+            c = self.ev(args[0])
+            cc = const_of(c) if isinstance(c, F.Rat) else None
+            if cc is not None and cc in (0, 1):
+                return self.ev(args[1] if cc == 1 else args[2])       # the generic mode takes the value of its own arm
+            return Unknown(f"np.where on a condition that is not decided for the generic mode: {c!r}"[:160])
         if d == "np.flatnonzero" and len(args) == 1:
             return self.ev(args[0])
         if d in self.MASK_FUNCS and len(args) == 2 and not node.keywords:
@@ -1979,7 +2022,7 @@ def imported_funcs(ctx, rel):
         return None
 
     for st in m.tree.body:
-        if isinstance(st, ast.ImportFrom):
+        if isinstance(st, ast.ImportFrom) and st.level >= 1:          # siblings of the same package only: library-like modules stay opaque
             src = resolve(st.level, st.module or "")
             for al in st.names:
                 name = al.asname or al.name
